@@ -743,7 +743,6 @@ package redis
 //@ func (*encoder).writeCRLF
 //@   prop C10 C11 C01 C03 C18 C02
 //@   modifies wrote, wlen
-//@   assume len(CRLF) == 2 && CRLF[0] == 13 && CRLF[1] == 10
 //@   ensures @crlf-appended err == nil ==> wlen[e.bw] == old(wlen[e.bw]) + 2 && wrote[e.bw][old(wlen[e.bw])] == 13 && wrote[e.bw][old(wlen[e.bw]) + 1] == 10
 //@   ensures @append-only wlen[e.bw] >= old(wlen[e.bw]) && forall k int :: k < old(wlen[e.bw]) ==> wrote[e.bw][k] == old(wrote[e.bw][k])
 //@   ensures @other-writers-untouched forall x loc :: x != e.bw ==> wlen[x] == old(wlen[x]) && wrote[x] == old(wrote[x])
@@ -1605,7 +1604,7 @@ package redis
 // non-null key list (a null list would go out as *-1) ------------------------------------------------------------
 
 //@ func init
-//@   prop C18 C01 C14 C03
+//@   prop C18 C01 C14 C03 C10 C11 C02
 //@   modifies all
 //@   assume itoaOffset[0] >= 0 && len(itoaBuffer) >= 0
 
